@@ -44,10 +44,9 @@ class C01(Monitor):
         self.cfg = cfg
 
     def step(self, S, tr):
-        if tr.ev[0] != 'call' or tr.incoherent:
+        if tr.ev[0] != 'call':
             return []
-        x, y = tr.binding
-        want = expected_result(self.cfg, x, y)
+        want = expected_result(self.cfg, tr.binding)
         if tr.exc is not None:
             return [(_sig(self.cfg, 'C01', 'call-raises', exc=type(tr.exc).__name__,
                           backend=self.cfg['backend']),
